@@ -180,6 +180,39 @@ Proof.
     rewrite vf_join_split by assumption. repeat rewrite <- app_assoc. cbn [app]. reflexivity.
 Qed.
 
+(* stage 5: data (the two skipped words are captured), mime (termination as in hdlr), the wvtt prefix *)
+Lemma lossless_data : leaf_lossless dec_data.
+Proof. intros h r l rsv r' Hok H G. unfold dec_data in H. run H. inj_pret H. finish_lossless. Qed.
+
+Lemma lossless_mime : leaf_lossless dec_mime.
+Proof.
+  intros h r l rsv r' Hok H G. unfold dec_mime in H. run H; inj_pret H.
+  - cbn [body_leaf]. eexists; split; [reflexivity|]; split; [|assumption].
+    rewrite vf_join_split by assumption. repeat rewrite <- app_assoc. cbn [app].
+    apply N.eqb_eq in Hc0.
+    assert (Hne : a0 <> []).
+    { intros ->. cbn in Hlen. apply N.ltb_ge in Hc. lia. }
+    rewrite (last_removelast a0 Hne) at 1. rewrite Hc0. repeat rewrite <- app_assoc. reflexivity.
+  - cbn [body_leaf]. eexists; split; [reflexivity|]; split; [|assumption].
+    rewrite vf_join_split by assumption. repeat rewrite <- app_assoc. cbn [app]. reflexivity.
+Qed.
+
+Lemma lossless_wvtt : leaf_lossless dec_wvtt.
+Proof.
+  intros h r l rsv r' Hok H G. unfold dec_wvtt in H.
+  destruct (rdB 6 r) as [[r6 r1]| | |] eqn:E6.
+  - destruct (rdB_spec _ _ _ _ Hok E6) as (-> & Hl6 & _ & Hok1).
+    destruct (rd 2 r1) as [[dri r2]| | |] eqn:E2.
+    + injection H as <- <- <-. destruct (rd_spec _ _ _ _ Hok1 E2) as (-> & _ & Hok2).
+      cbn [body_leaf chunk nth]. eexists; split; [reflexivity|]; split; [|assumption]. now rewrite <- app_assoc.
+    + destruct (16 <? h_size h); [discriminate|]. injection H as <- <- <-. discriminate G.
+    + destruct (16 <? h_size h); [discriminate|]. injection H as <- <- <-. discriminate G.
+    + destruct (16 <? h_size h); [discriminate|]. injection H as <- <- <-. discriminate G.
+  - destruct (16 <? h_size h); [discriminate|]. injection H as <- <- <-. discriminate G.
+  - destruct (16 <? h_size h); [discriminate|]. injection H as <- <- <-. discriminate G.
+  - destruct (16 <? h_size h); [discriminate|]. injection H as <- <- <-. discriminate G.
+Qed.
+
 (* ---------------------------------------------------------------- counted tables *)
 Lemma item_tsample fl bs a r : bytes_ok bs = true -> rd_tsample fl bs = Ok (a, r) ->
   bs = wr_tsample fl a ++ r /\ bytes_ok r = true.
